@@ -16,6 +16,13 @@ pub fn main(prop: &'static str, args: &Args) {
         if case["engine"] == "builtin" {
             std::process::exit(if crate::c07::replay(&case) { 0 } else { 1 });
         }
+        if case["engine"] == "string-hook" {
+            let t = crate::c13::string_hook_panics();
+            for v in &t.violations {
+                println!("replay: {}", v.what);
+            }
+            std::process::exit(if t.violations.is_empty() { 0 } else { 1 });
+        }
         if case["engine"] == "builtin-spans" {
             std::process::exit(if crate::c03b::replay(&case) { 0 } else { 1 });
         }
@@ -113,6 +120,8 @@ pub fn main(prop: &'static str, args: &Args) {
         rep.absorb(t2);
         let t = crate::c07::sweep();
         rep.absorb(t);
+        // every syntax-valued target's string hook on every text, one after another on one thread
+        rep.absorb(crate::c13::string_hook_panics());
         rep.set("builtin_targets", json!(crate::c07::targets().len()));
         rep.set("builtin_menu_items", json!(crate::c07::menu().len()));
         rep.require_counter("builtin_ok");
